@@ -184,4 +184,94 @@ class KCScn:
                          [r["name"] for r in (op.get("after") or {}).get("sort") or []]] for op in c.get("ops") or []]}
 
 
-SCN = {"orch": Orch, "kc": KCScn}
+class EvalScn:
+    """aspects: value (outcome class / returned value / flag), state (host objects after the rule),
+    trace (observer calls), cite (cited line), panic (a Go panic escaped Execute), hang."""
+
+    @staticmethod
+    def norm_env(env):
+        out = {}
+        for o in env or []:
+            t = o.get("type")
+            if t in ("val", "pscalar"):
+                out[o["name"]] = o.get("val")
+            elif t == "struct":
+                out[o["name"]] = [[f[0], f[1]] for f in (o.get("fields") or [])]
+            elif t == "map":
+                out[o["name"]] = sorted([json.dumps(e, sort_keys=True) for e in (o.get("entries") or [])])
+            elif t == "slice":
+                out[o["name"]] = o.get("elems") or []
+        return out
+
+    @staticmethod
+    def compare(c, o):
+        issues = []
+        if c.get("build"):
+            return [{"aspect": "build", "kind": "impl-vs-model", "method": c.get("mode"),
+                     "detail": "generated text rejected: %s" % c["build"][:300]}]
+        for side, kind in (("model", "impl-vs-model"), ("spec", "impl-vs-spec")):
+            outs = (o or {}).get(side)
+            if outs is None:
+                continue
+            for k, r in enumerate(c.get("rules") or []):
+                res = r.get("result") or {}
+                if k >= len(outs):
+                    issues.append({"aspect": "driver", "kind": kind, "method": c.get("mode"), "detail": "rule %d: no %s output" % (k, side)})
+                    break
+                m = outs[k]
+                if m.get("skip"):
+                    continue
+                if '"unspec"' in json.dumps(m):
+                    break      # an out-of-range float->int conversion happened: implementation defined, not compared
+                def add(aspect, detail):
+                    issues.append({"aspect": aspect, "kind": kind, "method": c.get("mode"),
+                                   "detail": "rule %d (%s): %s | impl msg: %s" % (k, r["hdr"]["name"], detail, (res.get("msg") or "")[:160])})
+                oc = res.get("outcome")
+                if oc == "hang":
+                    add("hang", "execution did not return within 20 s")
+                    break
+                if oc == "panic" or m.get("outcome") == "panic":
+                    if oc != m.get("outcome"):
+                        add("panic", "impl %s, %s %s" % (oc, side, m.get("outcome")))
+                    if oc == "panic":
+                        break
+                    continue
+                if oc != m.get("outcome"):
+                    add("value", "impl outcome %s, %s %s" % (oc, side, m.get("outcome")))
+                    continue
+                if oc == "ok" and (res.get("flag") != m.get("flag") or res.get("val") != m.get("val")):
+                    add("value", "impl returned flag=%s %s, %s flag=%s %s" % (res.get("flag"), res.get("val"), side, m.get("flag"), m.get("val")))
+                if oc == "err" and res.get("cite") != m.get("cite"):
+                    add("cite", "impl cites line %s, %s line %s" % (res.get("cite"), side, m.get("cite")))
+                if EvalScn.norm_env(res.get("env")) != EvalScn.norm_env(m.get("env")):
+                    a, b = EvalScn.norm_env(res.get("env")), EvalScn.norm_env(m.get("env"))
+                    diff = {n: (a.get(n), b.get(n)) for n in set(a) | set(b) if a.get(n) != b.get(n)}
+                    add("state", "host state differs (impl, %s): %s" % (side, json.dumps(diff)[:400]))
+                if (res.get("trace") or []) != (m.get("trace") or []):
+                    add("trace", "observer calls impl %s, %s %s" % (json.dumps(res.get("trace"))[:200], side, json.dumps(m.get("trace"))[:200]))
+        return issues
+
+    @staticmethod
+    def classify(c):
+        key = c.get("text", "")
+        nontrivial = any((r.get("result") or {}).get("outcome") == "ok" for r in c.get("rules") or [])
+        return key, nontrivial
+
+    @staticmethod
+    def histo(c):
+        yield "mode:%s" % c.get("mode")
+        yield "rules:%d" % len(c.get("rules") or [])
+        for r in c.get("rules") or []:
+            yield "outcome:%s" % (r.get("result") or {}).get("outcome")
+        t = c.get("text", "")
+        for kw in ("if", "else if", "for", "forRange", "break", "continue", "conc", "return", "+=", "@"):
+            if (" " + kw + " ") in t or (kw + " ") in t:
+                yield "has:%s" % kw
+
+    @staticmethod
+    def sample(c, o):
+        return {"mode": c.get("mode"), "text": c.get("text", "")[:600],
+                "results": [{k: (r.get("result") or {}).get(k) for k in ("outcome", "cite", "flag", "val")} for r in c.get("rules") or []]}
+
+
+SCN = {"orch": Orch, "kc": KCScn, "eval": EvalScn}
